@@ -48,10 +48,10 @@ def design_checks(ctx, kd):
     """TLC on the code-shaped machine: repaired variant satisfies the property; the as-is variant is refuted
     exactly by the candidate findings.  Model-level results never produce a VIOLATION (DESIGN 2.4)."""
     res = {}
-    plan = [("core", "md", 1, False, 4), ("fault", "md", 1, True, 3), ("batch", "md", 1, False, 3), ("ttl", "md", 1, False, 4),
-            ("valid", "md", 1, True, 4), ("layer", "mmd", 1, False, 3)]
+    plan = [("core", "md", 1, False, 4), ("fault", "md", 1, True, 3), ("valid", "md", 1, True, 3), ("ttl", "md", 1, False, 4)]
     if not ctx.quick:
-        plan += [("core", "mmd", 2, False, 4), ("core", "md", 2, False, 4), ("fault", "mmd", 1, True, 3)]
+        plan += [("batch", "md", 1, False, 3), ("valid", "md", 1, True, 4), ("layer", "mmd", 1, False, 3),
+                 ("core", "mmd", 2, False, 4), ("core", "md", 2, False, 4), ("fault", "mmd", 1, True, 3), ("core", "mm", 1, False, 4)]
     jobs = []      # (name, cfg arguments, invariants, deadlock, expect_violation)
     for fam, lay, c0, hooks, d in plan:
         jobs.append((f"ideal_{fam}_{lay}{c0}", (fam, lay, c0, hooks, d, ALL_FINDINGS, []), ["ConformsIdeal", "Returns", "GhostSane"], True, False))
@@ -130,17 +130,22 @@ def judge_trace(ctx, trace, source, kd, max_events=60000):
     return v
 
 
-def run_programs(ctx, tag, lines, jobs=1, shards=12):
+def run_programs(ctx, tag, lines, jobs=1, shards=12, max_hangs=3):
+    """max_hangs: per driver job; an unexpected hang costs the watchdog timeout, so after a few of them a job skips
+    its remaining programs (the recorded hangs are judged - as VIOLATIONs unless a listed finding explains them)."""
     pf = ctx.path(f"prog_{tag}.ndjson")
     open(pf, "w").write("\n".join(lines) + "\n")
     trace = ctx.path(f"trace_{tag}.ndjson")
     if jobs > 1:
-        d = lib.run_driver(DRV, ["--programs", pf, "--out", trace, "--jobs", jobs], timeout=2400)
+        d = lib.run_driver(DRV, ["--programs", pf, "--out", trace, "--jobs", jobs, "--max-hangs", max_hangs], timeout=2400)
     else:
-        d = lib.run_sharded(ctx, DRV, pf, trace, shards=shards, timeout=2400)
-    ctx.stage("run", config=tag, programs=d.get("programs"), events=d.get("events"), hangs=d.get("hangs"), wall_s=d["wall_s"])
-    if d.get("programs") != len(lines):
-        raise lib.ToolError(f"driver executed {d.get('programs')} of {len(lines)} programs ({tag})")
+        d = lib.run_sharded(ctx, DRV, pf, trace, extra_args=["--max-hangs", max_hangs], shards=shards, timeout=2400)
+    ctx.stage("run", config=tag, programs=d.get("programs"), events=d.get("events"), hangs=d.get("hangs"), skipped=d.get("skipped"), wall_s=d["wall_s"])
+    if d.get("skipped"):
+        with LOCK:
+            ctx.cov["programs_skipped_after_hangs"] = ctx.cov.get("programs_skipped_after_hangs", 0) + d["skipped"]
+    if d.get("programs", 0) + d.get("skipped", 0) != len(lines) or (d.get("skipped") and not d.get("hangs")):
+        raise lib.ToolError(f"driver executed {d.get('programs')} (+{d.get('skipped')} skipped) of {len(lines)} programs ({tag})")
     os.remove(pf)
     return trace, d
 
@@ -232,10 +237,10 @@ def run(ctx):
     # (tag, family, layout, cap0, hooks, depth)
     if ctx.quick:
         plan = [("core_md1", "core", "md", 1, False, 4), ("core_mmd1", "core", "mmd", 1, False, 3), ("core_md2", "core", "md", 2, False, 3),
-                ("layer_mmd", "layer", "mmd", 1, False, 3), ("batch_md1", "batch", "md", 1, False, 3),
-                ("valid_md1", "valid", "md", 1, True, 4), ("valid_off", "valid", "md", 1, False, 3),
+                ("layer_md1", "layer", "md", 1, False, 3), ("batch_md1", "batch", "md", 1, False, 3),
+                ("valid_md1", "valid", "md", 1, True, 4),
                 ("fault_md1", "fault", "md", 1, True, 3), ("ttl_md1", "ttl", "md", 1, False, 3)]
-        max_hang, nrand, rlen = 36, 150, 60
+        max_hang, nrand, rlen = 36, 300, 60
     else:
         plan = [("core_md1", "core", "md", 1, False, 5), ("core_mmd1", "core", "mmd", 1, False, 4), ("core_md2", "core", "md", 2, False, 4),
                 ("core_mm", "core", "mm", 1, False, 4),
@@ -276,7 +281,7 @@ def run(ctx):
     if hang_pool:
         rnd.shuffle(hang_pool)
         sample = add_strategy(sorted(hang_pool[:max_hang]))
-        trace, info = run_programs(ctx, "hang", sample, jobs=min(32, max(1, (len(sample) + 2) // 3)))
+        trace, info = run_programs(ctx, "hang", sample, jobs=min(32, max(1, (len(sample) + 2) // 3)), max_hangs=1000000)
         total += len(sample); distinct += len(set(sample))
         ls = lib.read_lines(trace)
         s, e = lib.run_of_line(ls, 1)
@@ -286,15 +291,19 @@ def run(ctx):
         os.remove(trace)
     # long seeded random histories: more keys, values, layers, bad layer indices, all operations mixed
     trace = ctx.path("trace_random.ndjson")
-    args = ["--random", nrand, "--len", rlen, "--out", trace, "--jobs", min(12, lib.NCPU)]
+    args = ["--random", nrand, "--len", rlen, "--out", trace, "--jobs", min(12, lib.NCPU), "--max-hangs", 3]
     if "F12a" in kd:
         args.append("--avoid-hang")
     d = lib.run_driver(DRV, args, env={"VERIF_SEED": ctx.seed}, timeout=2400)
     ctx.stage("run", source="random", programs=d.get("programs"), events=d.get("events"), hangs=d.get("hangs"), wall_s=d["wall_s"])
-    if d.get("programs") != nrand:
+    if d.get("skipped"):
+        ctx.cov["programs_skipped_after_hangs"] = ctx.cov.get("programs_skipped_after_hangs", 0) + d["skipped"]
+    if d.get("programs", 0) + d.get("skipped", 0) != nrand or (d.get("skipped") and not d.get("hangs")):
         raise lib.ToolError(f"driver executed {d.get('programs')} of {nrand} random programs")
     judge_trace(ctx, trace, f"random seed={ctx.seed}", kd, max_events=30000)
     total += nrand; distinct += nrand
+    total -= ctx.cov.get("programs_skipped_after_hangs", 0)
+    distinct = min(distinct, total)
     ctx.cov["traces_validated_against_impl"] = total
     ctx.cov["evaluations"] = total
     ctx.cov["distinct_nontrivial"] = distinct
